@@ -156,3 +156,58 @@ def attr_writers(repo: Repo, attr: str, trees: Optional[Sequence[Tuple[str, ast.
             elif isinstance(node, (ast.For, ast.With)):
                 pass
     return out
+
+
+# --------------------------------------------------------------------------- typed who-may-write
+class TypedWrite:
+    def __init__(self, fi: FuncInfo, ev: Event, owner: str, attr: str, kind: str):
+        self.fi = fi
+        self.ev = ev
+        self.owner = owner      # qualname of the class whose attribute is written
+        self.attr = attr
+        self.kind = kind        # store | del | item-store | item-del | call:<mutator>
+
+    @property
+    def func(self) -> str:
+        return self.fi.qualname
+
+
+def typed_writes(w: Walker, repo: Repo) -> List[TypedWrite]:
+    """all writes `X.attr = ..`, `del X.attr[..]`, `X.attr[k] = ..`, `X.attr.mutator(..)` in the repository with the
+    (light-)typed class of X; computed once per Walker."""
+    cached = getattr(w, "_typed_writes", None)
+    if cached is not None:
+        return cached
+    out: List[TypedWrite] = []
+    for fi in repo.all_functions():
+        try:
+            s = w.summary(fi.qualname, 0)
+        except Exception:
+            continue
+        for ev in s.events:
+            if ev.chain:
+                continue
+            tgt = None
+            kind = ev.kind
+            if ev.kind in ("store", "del"):
+                tgt = ev.term
+                if tgt[0] == "s":
+                    tgt = tgt[1]
+                    kind = "item-" + ev.kind
+            elif ev.kind == "call" and ev.parts and ev.parts[0][0] == "a" and ev.parts[0][2] in MUTATORS:
+                tgt = ev.parts[0][1]
+                kind = "call:" + ev.parts[0][2]
+            if tgt is None or tgt[0] != "a":
+                continue
+            ty = s.norm.type_of(tgt[1], s.scope)
+            owner = None
+            if ty and ty[0] == "C":
+                owner = ty[1]
+            elif ty and ty[0] == "K":
+                owner = ty[1]
+            if owner is None:
+                continue
+            # attribute may be declared on a base class
+            out.append(TypedWrite(fi, ev, owner, tgt[2], kind))
+    w._typed_writes = out  # type: ignore
+    return out
